@@ -356,6 +356,11 @@ def from_generic(ex, args, callee):
         tgt, src = type_key(m.group(1)), type_key(m.group(2))
         if src == tgt:
             return args[0]
+        if tgt == 'T' and ex.out.get('generic_T'):
+            # MetricBuilder<T>: T is fixed by the entry point's return type (the harness knows it)
+            name = ex.prog.find_impl_method('from', ex.out['generic_T'], 'From', src)
+            if name is not None:
+                return ex.call(name, args)
     raise Unsupported('From::from ' + callee)
 
 
